@@ -452,6 +452,37 @@ theorem modinfo_parse (b : SecBuf) (hI : b.Inv) (as : List Modinfo.Attr)
     rw [← hsplit] at this
     simp only [Modinfo.parse, hd, this, List.nil_append]
 
+/-- the reference reader inverts the reference encoder -/
+theorem spec_parse_encode (as : List (Bytes × Bytes)) (hok : ∀ a ∈ as, Spec.AttrOk a) :
+    Spec.parseModinfo (Spec.encodeModinfo as) = as := by
+  induction as with
+  | nil => simp [Spec.parseModinfo, Spec.splitNul, Spec.encodeModinfo, Spec.splitNulAux]
+  | cons a as ih =>
+    obtain ⟨f, v⟩ := a
+    obtain ⟨hf, hv⟩ := hok (f, v) (by simp)
+    have hrec : ∀ c ∈ f ++ Spec.eqSign :: v, c ≠ 0 := by
+      intro c hc
+      simp only [List.mem_append, List.mem_cons] at hc
+      rcases hc with h | rfl | h
+      · exact (hf c h).2
+      · decide
+      · exact hv c h
+    have hbuf : Spec.encodeModinfo ((f, v) :: as) = (f ++ Spec.eqSign :: v) ++ 0 :: Spec.encodeModinfo as := by
+      simp [Spec.encodeModinfo, Spec.encodeAttr]
+    have ih' := ih (fun a ha => hok a (by simp [ha]))
+    simp only [Spec.parseModinfo, Spec.splitNul] at ih' ⊢
+    rw [hbuf, splitNulAux_record _ _ [] hrec (Or.inr (by simp))]
+    simp only [List.reverse_nil, List.nil_append, List.map_cons, ih']
+    congr 1
+    simp only [Spec.splitFirstEq, takeWhile_stop Spec.eqSign f v (fun c hc => (hf c hc).1),
+      dropWhile_stop Spec.eqSign f v (fun c hc => (hf c hc).1), List.drop_one, List.tail_cons]
+
+/-- hence the accessor's parser agrees with the reference reader on every well-formed section -/
+theorem modinfo_parse_eq_spec (b : SecBuf) (hI : b.Inv) (as : List Modinfo.Attr)
+    (hc : b.content = Spec.encodeModinfo as) (hok : ∀ a ∈ as, Spec.AttrOk a) :
+    Modinfo.parse b = .ok (Spec.parseModinfo b.content) := by
+  rw [hc, spec_parse_encode as hok]; exact modinfo_parse b hI as hc hok
+
 theorem getByName_eq_lookupFirst (as : List Modinfo.Attr) (f : Bytes) :
     Modinfo.getByName as f = Spec.lookupFirst as f := by
   induction as with
